@@ -216,7 +216,9 @@ bool QXmppRegistrationManager::handleStanza(const QDomElement &stanza)
         return true;
     }
 
-    if (stanza.tagName() == u"iq") {
+    // only responses are handled here, requests are answered with an error by the client
+    const auto type = stanza.attribute(u"type"_s);
+    if (stanza.tagName() == u"iq" && (type == u"result" || type == u"error")) {
         const QString &id = stanza.attribute(u"id"_s);
 
         if (!id.isEmpty() && id == d->registrationIqId) {
